@@ -95,7 +95,12 @@ def sites(fb, body):
             if ext and (ext.get("doc_panics") or path in SUPPLEMENT) or path in SUPPLEMENT:
                 org = origin_of(body, defs, t["args"][0]) if t["args"] else ""
                 recv = st or ",".join(f.get("args", []))
-                yield {"kind": "maypanic-call", "what": path, "what_path": path, "ty": recv, "origin": org, "loc": loc(span), "span": span, "fn": body["path"],
+                c1 = None
+                if len(t["args"]) > 1:
+                    cc = mir.trace_const(body, t["args"][1], defs)
+                    if cc is not None and cc.get("bits") is not None:
+                        c1 = int(cc["bits"])
+                yield {"kind": "maypanic-call", "const_arg1": c1, "what": path, "what_path": path, "ty": recv, "origin": org, "loc": loc(span), "span": span, "fn": body["path"],
                        "key": "call|%s|%s|<-%s" % (path, recv, org)}
 
 
@@ -215,3 +220,46 @@ def coarse_key(s):
         org = "::".join(org.split("::")[-2:]) if org else "?"
         k += "|<-" + org
     return k
+
+
+# ---- library-wide audit: which documented-panicking callees are RELEVANT -----------------------------------
+# Doc comments mention "panic" also for conditions that no input can produce (an iterator longer than
+# usize::MAX, allocation failure / capacity overflow, a comparator that itself panics).  Those are not
+# sites of this audit; everything else that documents a panic - and anything new - is.
+LIB_IGNORE_NAMES = {
+    # Iterator adaptors / consumers: "overflow" of the element count only
+    "count", "enumerate", "last", "position", "rposition", "sum", "product", "nth", "step_by", "skip", "take", "rev", "zip", "chain",
+    # growth: capacity overflow / allocation failure only
+    "push", "push_str", "with_capacity", "reserve", "extend", "extend_from_slice", "append", "insert_str", "from_elem", "resize",
+    # sorting: panics only if the comparator panics / is not a total order on the compared keys
+    "sort", "sort_by", "sort_by_key", "sort_by_cached_key", "sort_unstable", "sort_unstable_by", "sort_unstable_by_key",
+    # never panics / documented as returning None
+    "get", "get_mut", "drop",
+}
+LIB_IGNORE_ASSERTS = ("Overflow(Add)", "Overflow(Sub)", "Overflow(Mul)")
+
+
+def lib_key(s):
+    """Class key for the library-wide audit, or None if the site is outside the audit's definition."""
+    if s["kind"] == "assert":
+        if s["what"] in LIB_IGNORE_ASSERTS:
+            return None       # index / priority arithmetic on in-memory sizes: cannot overflow for representable inputs
+        if s["what"] == "BoundsCheck":
+            return "index|slice-like"
+        return "assert|%s|%s" % (s["what"], s.get("ty"))
+    if s["kind"] == "diverge":
+        return "diverge|%s" % s["what"]
+    if s["kind"] == "intarith":
+        return s["key"]
+    callee = s["what"]
+    name = callee.rsplit("::", 1)[-1]
+    if name in LIB_IGNORE_NAMES:
+        return None
+    if name in ("windows", "chunks", "chunks_exact", "rchunks") and s.get("const_arg1") not in (None, 0):
+        return None           # window / chunk size is a non-zero constant
+    tc = norm_key(type_class(s.get("ty") or ""))
+    if name in ("index", "index_mut") and callee.startswith("std::ops::Index"):
+        return "index|str" if tc == "str" else "index|slice-like"
+    if name in ("remove", "swap_remove"):
+        return "remove|vector-like"
+    return "call|%s|%s" % (callee, tc)
